@@ -36,7 +36,7 @@ inline std::vector<std::pair<size_t, size_t>> factor_windows(size_t n, bool used
 template <class EA, class EB, size_t oa, size_t ob>
 void pair_case(size_t n, std::pair<size_t, size_t> wa) {
   auto &En = Engine::get();
-  auto g = gridvars(n);
+  auto g = gridpoints(n);
   Grid<Real> grid(g);
   Real c = Real::var("c"), k = Real::var("k");
   if (EA::divides_by_c || EB::divides_by_c) En.assume(sym::ne(c, Real(0)));
@@ -84,7 +84,26 @@ void add_pair_o(std::vector<Case> &cases) {
   else if constexpr (oa > 0)
     add_pair_o<EA, EB, oa - 1, MAXO>(cases);
 }
+#ifdef FIXED_GRID
+static constexpr std::array<size_t, 5> HO{5, 6, 7, 8, 10};
+template <class EA, class EB, size_t oa, size_t ob>
+void add_pair_one(std::vector<Case> &cases) {
+  for (size_t n = 2; n <= MAXN; n++)
+    for (auto wa : windows(n, false))
+      cases.push_back({std::string("bilin-high/") + EA::name + "," + EB::name + "/o" + std::to_string(oa) + "x" + std::to_string(ob) + "/n" + std::to_string(n) + "/wa" + W(wa),
+                       [=] { pair_case<EA, EB, oa, ob>(n, wa); }});
+}
+template <class EA, class EB, size_t... I>
+void add_pair_hi(std::vector<Case> &cases, std::index_sequence<I...>) {
+  (add_pair_one<EA, EB, HO[I / HO.size()], HO[I % HO.size()]>(cases), ...);
+}
+template <class EA, class EB>
+void add_pair(std::vector<Case> &cases) {
+  add_pair_hi<EA, EB>(cases, std::make_index_sequence<HO.size() * HO.size()>{});
+}
+#else
 template <class EA, class EB>
 void add_pair(std::vector<Case> &cases) {
   add_pair_o<EA, EB, MAXO, MAXO>(cases);
 }
+#endif
